@@ -151,10 +151,24 @@ def _gen_shape(repo):
     for n in ast.walk(g):
         if isinstance(n, ast.ExceptHandler) and n.type is not None and _norm(n.type) == 'Exception' and \
                 any('job, ind = task[1][:2]' == _norm(s) for s in n.body) and \
-                any('cache[job]._set(ind' in _norm(s) for s in ast.walk(n) if isinstance(s, ast.stmt)):
+                any('item._set(ind' in _norm(s) for s in ast.walk(n) if isinstance(s, ast.stmt)):
             inner = n
     facts['put_failure_goes_on_with_next_task'] = inner is not None and \
         not any(isinstance(x, (ast.Break, ast.Return, ast.Raise)) for x in ast.walk(inner))
+    # an apply task that could not be sent: slot given back (once, if unresolved), job failed, entry dropped
+    single = None
+    if inner is not None:
+        single = next((x for x in ast.walk(inner) if isinstance(x, ast.If) and _norm(x.test) == 'ind is None'), None)
+    facts['unsent_apply_gives_slot_back_and_leaves_cache'] = single is not None and \
+        [_norm(x) for x in single.body] == [
+            'if not item.ready() and self.putlock is not None: self.putlock.release()',
+            'item._set(ind, (False, ExceptionInfo()))', 'cache.pop(job, None)'] and \
+        [_norm(x) for x in single.orelse] == ['item._set(ind, (False, ExceptionInfo()))']
+    g = find_func(tree, 'Pool.apply_async')
+    at = ' ; '.join(_norm(s) for s in _walk_stmts(g))
+    facts['unsendable_apply_without_threads_leaves_nothing'] = \
+        any(_norm(h) == 'except Exception: self._cache.pop(result._job, None) if waitforslot and self._putlock is not None: self._putlock.release() raise'
+            for n in ast.walk(g) if isinstance(n, ast.Try) for h in n.handlers)
 
     out = ['(* GENERATED by translate/kernels/poolshape.py from billiard/pool.py -- do not edit *)']
     for k in sorted(facts):
